@@ -74,7 +74,7 @@ def run(chk):
 
     # (b) C vs LLVM on real kernels
     index, d = classify_rot(chk, "ckern", "c06_kernels.py",
-                            {"seed": chk.seed * 43 + 2, "prefix": "k", "max_problems": 16 if quick else 120, "n_inputs": 2, "fmt_cap": 2 if quick else 4},
+                            {"seed": chk.seed * 43 + 2, "prefix": "k", "max_problems": 22 if quick else 120, "n_inputs": 3, "fmt_cap": 2 if quick else 4},
                             "the C back end")
     if index is not None:
         chk.count("c_vs_llvm_kernel_runs", index["compared"])
